@@ -1,4 +1,5 @@
 import Qentem.Model.Tmpl.Render
+import Qentem.Model.Tmpl.WF
 import Qentem.Driver.Expr
 import Qentem.Driver.Proto
 namespace Qentem.Driver.Tmpl
@@ -9,6 +10,7 @@ Driver of the template model (C01/C02/C17).
 
   tplrender <w> <doc> <units>   parse + render at `R := Float`  → `R <units>` | `F<fault>`
   tpltags <w> <units>           parse only → a dump of the tag tree | `F<fault>`
+  tplwf <w> <units>             parse only → `W 1` / `W 0`: `wf` (Model/Tmpl/WF.lean) of the tag tree
 
 `<w>` (character width) is ignored by the model.  `<doc>`: comma-separated prefix code
   u | z | t | f | n<dec> | i<signed dec> | s<u.u.u> (s alone = empty) | a<count> doc… |
@@ -114,6 +116,14 @@ def handle (op : String) : List String → String
         match parse scanCfg u with
         | .error e => showFault e
         | .ok tags => "T " ++ showTags tags
+      | none => "bad-op"
+    else if op == "tplwf" then
+      -- the decidable well-formedness predicate of `Model/Tmpl/WF.lean` on what `parse` returns
+      match parseNats us with
+      | some u =>
+        match parse scanCfg u with
+        | .error e => showFault e
+        | .ok tags => "W " ++ showBool (wf u.length tags)
       | none => "bad-op"
     else "bad-op"
   | _ => "bad-op"
